@@ -1,3 +1,23 @@
+/- C01: Encode then Decode returns the same message, for every message type: `roundtrip` at the regenerated environment;
+   its side conditions (Decode mirrors Encode statement by statement, union keys are earlier fields, prefix widths) are
+   evaluated by the kernel on Gen. -/
 import FinProto.Obl.Side
+import FinProto.Props.RoundTrip
 namespace FinProto.Obl
+open FinProto
+
+theorem C01_mirror : Gen.env.mirrorOK = true := gen_mirrorOK
+theorem C01_keys : Gen.env.keysOK = true := gen_keysOK
+theorem C01_widths : Gen.env.widthsOK = true := gen_widthsOK
+theorem C01_no_unrecognised_statement : Gen.env.noOpaque = true := gen_noOpaque
+
+theorem C01_repo : ∀ f ty v pre v' out, canonTy Gen.env f ty v = true → encTy Gen.env f ty v pre = .ok (v', out) →
+    ∃ bs, out = pre ++ bs ∧ ∀ rest, decTy Gen.env f ty (bs ++ rest) = .ok (v', rest) :=
+  roundtrip Gen.env gen_mirrorOK gen_keysOK gen_widthsOK
+
+/-- the decoded message is the original, except for a frame's self-computed fields -/
+theorem C01_same : ∀ f ty v pre v' out, Gen.env.isFrame ty = false → canonTy Gen.env f ty v = true →
+    encTy Gen.env f ty v pre = .ok (v', out) → v' = v :=
+  enc_canon_val Gen.env gen_framesTop
+
 end FinProto.Obl
